@@ -298,4 +298,49 @@ def T_log(src):
     return _apply(src, _Log)
 
 
-ALL = {"log-lines": T_log, "unused-local": T_nooplocal, "add-docstrings": T_docstring, "mirror-comparisons": T_mirror, "pass": T_pass, "const-swap": T_const, "if-not": T_ifnot, "return-temp": T_rettmp, "kwargs-order": T_kwargs, "rename-locals": T_rename}
+class _AugExpand(ast.NodeTransformer):
+    """x += e  ->  x = x + e   for plain local names and numeric-looking right sides (never for attributes/subscripts: in-place
+    operators on arrays are not the same thing as rebinding)"""
+    def visit_AugAssign(self, node):
+        self.generic_visit(node)
+        if isinstance(node.target, ast.Name) and isinstance(node.op, (ast.Add, ast.Sub)) and isinstance(node.value, (ast.Constant,)) and isinstance(node.value.value, int):
+            return ast.copy_location(ast.Assign(targets=[ast.Name(id=node.target.id, ctx=ast.Store())], value=ast.BinOp(left=ast.Name(id=node.target.id, ctx=ast.Load()), op=node.op, right=node.value)), node)
+        return node
+
+
+class _ElifNest(ast.NodeTransformer):
+    """if a: A elif b: B else: C  ->  if a: A else: (if b: B else: C)  - the same tree in Python's AST, so this re-parses a differently LAID-OUT
+    source: it guards rules against depending on line numbers within chains.  Implemented by inserting a `pass` before the nested if."""
+    def visit_If(self, node):
+        self.generic_visit(node)
+        if len(node.orelse) == 1 and isinstance(node.orelse[0], ast.If):
+            node.orelse = [ast.Pass(), node.orelse[0]]
+        return node
+
+
+class _TupleList(ast.NodeTransformer):
+    """x in (a, b)  <->  x in [a, b]"""
+    def visit_Compare(self, node):
+        self.generic_visit(node)
+        if len(node.ops) == 1 and isinstance(node.ops[0], (ast.In, ast.NotIn)):
+            c = node.comparators[0]
+            if isinstance(c, ast.Tuple) and c.elts:
+                node.comparators = [ast.List(elts=c.elts, ctx=ast.Load())]
+            elif isinstance(c, ast.List) and c.elts:
+                node.comparators = [ast.Tuple(elts=c.elts, ctx=ast.Load())]
+        return node
+
+
+def T_augexpand(src):
+    return _apply(src, _AugExpand)
+
+
+def T_elifnest(src):
+    return _apply(src, _ElifNest)
+
+
+def T_tuplelist(src):
+    return _apply(src, _TupleList)
+
+
+ALL = {"log-lines": T_log, "unused-local": T_nooplocal, "add-docstrings": T_docstring, "mirror-comparisons": T_mirror, "pass": T_pass, "const-swap": T_const, "if-not": T_ifnot, "return-temp": T_rettmp, "kwargs-order": T_kwargs, "rename-locals": T_rename, "augassign-expanded": T_augexpand, "elif-as-nested-if": T_elifnest, "in-tuple-vs-list": T_tuplelist}
